@@ -240,7 +240,7 @@ def run (s : St) : List Op → St
 /-! ### line protocol
 `reset <batchSz> <loopback 0|1> [maxRetries]` → `ok`
 `entry <idx> <tx 0|1> <n,n,...|->` | `timer` | `sync` | `leader 0|1` | `endpoint 0|1` |
-`hwm <n>` | `tick` | `restart`      (prefix `T ` = the op is followed by a `tick`, one result line)
+`hwm <n>` | `tick` | `restart`      (`stream <idx> <tx> <n,n,..>` → the streamer's groups only; prefix `T ` = the op is followed by a `tick`, one result line)
   → `hwm=<n> len=<n> first=<k> highest=<k> next=<b> batcher=<n> held=<k|-> new=<deliveries>`
 deliveries since the previous line: `key:idx/e.j+e.j,idx/...;key:...` or `-`
 -/
@@ -285,6 +285,13 @@ def parseOp : List String → Option Op
 
 def step (d : DState) (line : String) : DState × String :=
   match words line with
+  | ["stream", k, tx, st] =>
+    -- the streamer alone: the groups one applied entry hands to the service
+    match k.toNat?, bitTok tx, natList st with
+    | some k, some tx, some st =>
+      let gs := streamEntry ⟨k, tx, st⟩
+      (d, if gs.isEmpty then "-" else joinWith "," (gs.map groupStr))
+    | _, _, _ => (d, "bad-op")
   | "T" :: rest =>
     match parseOp rest with
     | some op => obs d (stepOp (stepOp d.s op) .tick)
